@@ -42,6 +42,20 @@ impl Contract<Empty> for HostileContract {
                 funds,
             })));
         }
+        if let Some(f) = v.get("nested") {
+            // arm the program of this nested call (possibly empty: then a transfer handed to us during it does nothing), forward
+            let sub: Vec<Value> = f.get("prog").and_then(|x| x.as_array()).cloned().unwrap_or_default();
+            self.shared.borrow_mut().reentry = sub;
+            return Ok(Response::new().add_message(CosmosMsg::Wasm(WasmMsg::Execute {
+                contract_addr: f["to"].as_str().unwrap_or("").to_string(),
+                msg: Binary::from(serde_json::to_vec(&f["msg"])?),
+                funds: parse_funds(f.get("funds"))?,
+            })));
+        }
+        if v.get("nested_clear").is_some() {
+            self.shared.borrow_mut().reentry.clear();
+            return Ok(Response::new());
+        }
         if v.get("transfer").is_some() || v.get("transfer_nft").is_some() {
             if self.shared.borrow().hostile_fail {
                 bail!("hostile token refuses to transfer")
@@ -53,13 +67,27 @@ impl Contract<Empty> for HostileContract {
                 self.shared.borrow_mut().reentry_ran = Some(prog.len());
             }
             let mut resp = Response::new();
+            // deep mode (model/ReentryDeep.v): every call of the program carries the program that runs if that call is
+            // re-entered; the call is then routed through `nested` below, which arms that program before forwarding
+            let deep = prog.iter().any(|f| f.get("prog").is_some());
             for (k, f) in prog.iter().enumerate() {
-                let to = f["to"].as_str().unwrap_or("").to_string();
-                let inner = serde_json::to_vec(&f["msg"])?;
+                let (to, inner, funds) = if deep {
+                    (_env.contract.address.to_string(), serde_json::to_vec(&serde_json::json!({"nested": f}))?, vec![])
+                } else {
+                    (f["to"].as_str().unwrap_or("").to_string(), serde_json::to_vec(&f["msg"])?, parse_funds(f.get("funds"))?)
+                };
                 resp = resp.add_submessage(SubMsg::reply_on_error(
-                    CosmosMsg::Wasm(WasmMsg::Execute { contract_addr: to, msg: Binary::from(inner), funds: parse_funds(f.get("funds"))? }),
+                    CosmosMsg::Wasm(WasmMsg::Execute { contract_addr: to, msg: Binary::from(inner), funds }),
                     1000 + k as u64,
                 ));
+            }
+            if deep {
+                // whatever the last nested call left armed is disarmed before the outer dispatch goes on
+                resp = resp.add_message(CosmosMsg::Wasm(WasmMsg::Execute {
+                    contract_addr: _env.contract.address.to_string(),
+                    msg: Binary::from(serde_json::to_vec(&serde_json::json!({"nested_clear": {}}))?),
+                    funds: vec![],
+                }));
             }
             return Ok(resp);
         }
